@@ -180,7 +180,9 @@ func (q *Queue[T]) pop(i int) T {
 		q.data[i], q.data[n] = q.data[n], out
 		q.move(q.data[i], i) // N.B. we do not report a move of out.
 		q.data = q.data[:n]
-		q.pushDown(i)
+		if i < n && q.pushDown(i) == i {
+			q.pushUp(i) // the moved element may belong above its new position
+		}
 	}
 	return out
 }
